@@ -22,8 +22,9 @@ def IntOfBV(x, signed=False):
     return f(x)
 
 class T:
-    def __init__(s, limb_min=0, abstract=False):
+    def __init__(s, limb_min=0, abstract=False, nowrap=False):
         s.memo = {}; s.side = []; s.vars = {}; s.limb_min = limb_min; s.abstract = abstract; s.prods = {}; s.nfresh = 0; s.nprod = 0
+        s.nowrap = nowrap; s.nowrap_obl = []      # nowrap: assume-and-prove mode: arithmetic that may wrap is emitted unwrapped and "0 <= e < 2^w" becomes a side obligation
     def fresh(s, pfx):
         s.nfresh += 1; return z3.Int('%s!%d' % (pfx, s.nfresh))
     # ---- product factory
@@ -73,6 +74,8 @@ class T:
     def wrapu(s, e, lo, hi, w):
         M = 1 << w
         if lo >= 0 and hi < M: return e, lo, hi
+        if s.nowrap and not z3.is_int_value(e):
+            s.nowrap_obl.append(z3.And(e >= 0, e < M)); return e, max(lo, 0), min(hi, M - 1)
         if lo >= 0 and hi < 2 * M: return z3.If(e >= M, e - M, e), 0, M - 1
         if lo >= -M and hi < M: return z3.If(e < 0, e + M, e), 0, M - 1
         if lo >= -M and hi < 2 * M: return z3.If(e < 0, e + M, z3.If(e >= M, e - M, e)), 0, M - 1
@@ -131,7 +134,10 @@ class T:
             # uninterpreted function returning BV (e.g. havoc): fresh var per application
             v = s.fresh('uf'); s.side.append(z3.And(v >= 0, v < M)); return v, 0, M - 1
         if op == Z3_OP_BADD:
-            es = [s.bv(c) for c in ch]; e = es[0][0]
+            es = [s.bv(c) for c in ch]
+            if s.nowrap:      # constants in the upper half are read as negative offsets (x + (2^w - 1) is x - 1)
+                es = [((z3.IntVal(lo - M), lo - M, lo - M) if (z3.is_int_value(a) and lo >= M // 2) else (a, lo, hi)) for a, lo, hi in es]
+            e = es[0][0]
             for a, _, _ in es[1:]: e = e + a
             return s.wrapu(e, sum(a for _, a, _ in es), sum(a for _, _, a in es), w)
         if op == Z3_OP_BSUB:
@@ -180,6 +186,8 @@ class T:
             if k >= w: return z3.IntVal(0), 0, 0
             a, l, h = s.bv(ch[0])
             if (h << k) < M: return a * (1 << k), l << k, h << k
+            if s.nowrap:
+                s.nowrap_obl.append(a * (1 << k) < M); return a * (1 << k), l << k, M - 1
             lowpart = s.bv(z3.Extract(w - k - 1, 0, ch[0]))
             return lowpart[0] * (1 << k), 0, lowpart[2] << k
         if op == Z3_OP_BLSHR and z3.is_bv_value(ch[1]):
